@@ -2448,24 +2448,6 @@ class sptensor:
         if newsubs.shape[1] < self.ndims:
             assert False, "Invalid subscripts"
 
-        # Check for expanding the order
-        if newsubs.shape[1] > self.ndims:
-            newshape = list(self.shape)
-            grow_size = newsubs.shape[1] - self.ndims
-            newshape.extend([1] * grow_size)
-            if self.subs.size > 0:
-                self.subs = np.concatenate(
-                    (
-                        self.subs,
-                        np.zeros(
-                            (self.subs.shape[0], grow_size),
-                            dtype=int,
-                        ),
-                    ),
-                    axis=1,
-                )
-            self.shape = tuple(newshape)
-
         # Copy rhs to newvals
         newvals = value
 
@@ -2489,6 +2471,25 @@ class sptensor:
         elif newvals.shape[0] != newnnz:
             # Sizes don't match
             assert False, "Number of subscripts and number of values do not match!"
+
+        # Check for expanding the order (only once the right-hand side is accepted:
+        # a rejected request leaves the tensor as it was)
+        if newsubs.shape[1] > self.ndims:
+            newshape = list(self.shape)
+            grow_size = newsubs.shape[1] - self.ndims
+            newshape.extend([1] * grow_size)
+            if self.subs.size > 0:
+                self.subs = np.concatenate(
+                    (
+                        self.subs,
+                        np.zeros(
+                            (self.subs.shape[0], grow_size),
+                            dtype=int,
+                        ),
+                    ),
+                    axis=1,
+                )
+            self.shape = tuple(newshape)
 
         # Remove duplicates and print warning if any duplicates were removed
         newsubs, idx = np.unique(newsubs, axis=0, return_index=True)
